@@ -247,7 +247,7 @@ static Value<Ch> rnd_tree(vf::Rng &rng, int depth) {
             int n = (int)rng.below(6);
             static const unsigned U8[] = {0, 1, 8, 9, 10, 12, 13, 0x1F, 0x22, 0x5C, 0x2F, 0x7F, 0x41, 0x7A, 0x20};
             for (int i = 0; i < n; ++i) {
-                unsigned c = rng.below(2) ? (unsigned)('a' + rng.below(26)) : U8[rng.below(15)];
+                unsigned c = rng.below(2) ? (unsigned)('a' + rng.below(26)) : (rng.below(2) ? U8[rng.below(15)] : rng.below(0x21));   // every control character 0x00..0x1F, space
                 if (sizeof(Ch) > 1 && rng.below(6) == 0) c = rng.below(2) ? 0x20AC : 0xE9;
                 s.push_back((Ch)c);
             }
@@ -264,9 +264,9 @@ static Value<Ch> rnd_tree(vf::Rng &rng, int depth) {
         default: {
             v = typename Value<Ch>::ObjectT();
             int n = (int)rng.below(4);
-            static const char *K[] = {"a", "", "k\"q", "b\\", "\x01", "key", "z/"};
+            static const char *K[] = {"a", "", "k\"q", "b\\", "\x01", "key", "z/", "\x0b", "t\tn\n", "\x1f\x7f"};
             for (int i = 0; i < n; ++i) {
-                const char *k = K[rng.below(7)];
+                const char *k = K[rng.below(10)];
                 std::basic_string<Ch> ks;
                 for (const char *p = k; *p; ++p) ks.push_back((Ch)(unsigned char)*p);
                 v[String<Ch>((const Ch *)ks.data(), (SizeT)ks.size())] = rnd_tree<Ch>(rng, depth - 1);
